@@ -92,7 +92,7 @@ func runC07(rc *sim.RunCtx) {
 	seqVal := true
 	profile := []string{"core", "core", "presence"}[t.Choose(3)]
 	// device: the direct one, or the real gnmiTarget in front of the in-process gNMI client (faults are then injected at the wire)
-	devKind := []string{"", "", "gnmi-proto", "gnmi-json_ietf"}[t.Choose(4)]
+	devKind := []string{"", "", "gnmi-proto", "gnmi-json_ietf", "netconf", "netconf-running"}[t.Choose(6)]
 	if profile == "presence" && devKind == "gnmi-proto" {
 		devKind = "gnmi-json" // KF-43: a presence container has no scalar form on the wire
 	}
@@ -358,7 +358,7 @@ func c07one(rc *sim.RunCtx, hist []*TxSpec, target int, coldSchema, seqVal bool,
 	rc.SigAdd(fmt.Sprintf("%s|%s|%s", fl.kind, fl.call, pos))
 	rc.NonTrivial()
 	rc.Logf("=== fault run: %s at call #%d (%s) of transaction #%d", fl.kind, fl.idx, fl.call, target)
-	f := map[string]string{"fault": fl.kind, "call": fl.call, "callidx": fmt.Sprint(fl.idx), "edits": renderEdits(hist[target])}
+	f := map[string]string{"fault": fl.kind, "call": fl.call, "callidx": fmt.Sprint(fl.idx), "edits": renderEdits(hist[target]), "device": devName(devKind)}
 	for i := 0; i < target; i++ {
 		time.Sleep(time.Second)
 		rc.AddSim(1)
@@ -467,6 +467,15 @@ func c07one(rc *sim.RunCtx, hist []*TxSpec, target int, coldSchema, seqVal bool,
 		ff["when"] = when
 		a, b := diffSets(refSnaps[i].dev, s.dev)
 		if len(a)+len(b) > 0 {
+			// is the difference nothing but key leaves of list entries that are on the device in addition?
+			keyOnly := len(a) == 0
+			for _, e := range b {
+				n := w.SI.Node(mustPath(w, strings.SplitN(e, " = ", 2)[0]))
+				if n == nil || !n.IsKeyLeaf() {
+					keyOnly = false
+				}
+			}
+			ff["extra_key_leaves_only"] = fmt.Sprint(keyOnly)
 			rc.Report(sim.Item{Prop: "C07", Clause: "C07.device-diverged-after-retry", Fields: ff, Detail: fmt.Sprintf("device differs from the fault-free run %s: missing %v extra %v", when, a, b)})
 		}
 		a, b = diffSets(refSnaps[i].intended, s.intended)
